@@ -203,6 +203,14 @@ def host_runner_product():
               [{"behaviour": "well"}, {"behaviour": "well", "die_on_initialize": True}],
               [{"behaviour": "well"}, {"behaviour": "never_reads"}, {"behaviour": "well"}],
               [{"behaviour": "well", "cfg_timeout": 30}, {"behaviour": "well", "mute_on_initialize": True, "cfg_timeout": 1}],
+              # a server that ANSWERS the handshake with something the client rejects (error reply, unsupported version,
+              # invalid result) and then does not go away by itself: alone, last, first, between good servers
+              [{"behaviour": "ignore_term", "init_reply": "error"}],
+              [{"behaviour": "well"}, {"behaviour": "ignore_term", "init_reply": "bad_version"}],
+              [{"behaviour": "ignore_term", "init_reply": "invalid"}, {"behaviour": "well"}],
+              [{"behaviour": "well"}, {"behaviour": "ignore_term", "init_reply": "error"}, {"behaviour": "well"}],
+              [{"behaviour": "well", "init_reply": "bad_version"}, {"behaviour": "never_reads", "init_reply": "error"}],
+              [{"behaviour": "close_stdout", "linger": "stubborn", "init_reply": "invalid"}],
               [{"behaviour": "well", "term_delay": 0.5}, {"behaviour": "well"}],
               [{"behaviour": "well"}, {"behaviour": "ignore_term"}, {"behaviour": "slow_start"}]]
     for g in groups:
@@ -455,7 +463,7 @@ class Scenarios(Suite):
                    + entry_scan(4, 160) + BAD[:4])
         if host_runner_enabled():
             hp = host_runner_product()
-            out += hp if budget != "quick" else [hp[0], hp[3], hp[6], hp[8], hp[10], hp[13]]
+            out += hp if budget != "quick" else [hp[0], hp[3], hp[6], hp[8], hp[10], hp[13], hp[14], hp[17], hp[20], hp[23]]
         for i, c in enumerate(out):
             if "bad" not in c:
                 c["nonce"] = f"{budget[0]}{i}"
@@ -481,6 +489,8 @@ class Scenarios(Suite):
                     return {"behaviour": "exit_at", "k": 0}
                 if sp.get("mute_on_initialize"):
                     return {"behaviour": "never_reads"}
+                if sp.get("init_reply"):
+                    return {"behaviour": "ignore_term"} if sp["behaviour"] in ("ignore_term", "close_stdout") else {"behaviour": "well"}
                 if "term_delay" in sp:
                     return {"behaviour": "slow_term", "term_delay_ms": int(sp["term_delay"] * 1000)}
                 return {"behaviour": sp["behaviour"]}
@@ -542,7 +552,8 @@ class Scenarios(Suite):
         if case.get("servers"):
             n = len(case["servers"])
             names = "+".join(sp["behaviour"] + ("(mute at initialize)" if sp.get("mute_on_initialize") else "(dies at initialize)"
-                             if sp.get("die_on_initialize") else "") for sp in case["servers"])
+                             if sp.get("die_on_initialize") else "(answers initialize with %s)" % sp["init_reply"] if sp.get("init_reply")
+                             else "") for sp in case["servers"])
             what = f"server_manager.run_command with {n} server(s) [{names}], command function {'raises' if case['path'] == 'exception' else 'returns'}"
             bound = H.GRACE_MS * n + H.SLACK_MS
             if o.get("hang") or o.get("total_ms", 0) > o.get("budget_ms", 10 ** 9):
@@ -643,7 +654,7 @@ class Scenarios(Suite):
             return f"bad-command/{case['bad']}/{case.get('api')}{'x%d' % case['attempts'] if case.get('attempts', 1) > 1 else ''}"
         b = case["behaviour"] + ("%d" % case["k"] if "k" in case else "")
         if case.get("servers"):
-            return "run_command:" + "+".join(sp["behaviour"] + ("-mute" if sp.get("mute_on_initialize") else "-dies" if sp.get("die_on_initialize") else "")
+            return "run_command:" + "+".join(sp["behaviour"] + ("-mute" if sp.get("mute_on_initialize") else "-dies" if sp.get("die_on_initialize") else "-init-" + sp["init_reply"] if sp.get("init_reply") else "")
                                              for sp in case["servers"]) + "/" + case["path"]
         if case.get("concurrent"):
             b = "concurrent:" + "+".join(sp["behaviour"] + ("%d" % sp["k"] if "k" in sp else "") for sp in case["concurrent"]) \
